@@ -259,7 +259,8 @@ func (x *Exec) modifiesKeys(ctr *FuncContract, c *ssa.CallCommon, m string) ([]s
 			}
 		}
 		more, _ := x.modifiesKeys(ctr, c, "any bytes.Buffer")
-		return append(out, more...), true
+		more2, _ := x.modifiesKeys(ctr, c, "any bytes.Reader")
+		return append(append(out, more...), more2...), true
 	}
 	if strings.HasPrefix(m, "any ") {
 		var out []string
@@ -947,8 +948,10 @@ func (x *Exec) havocLvalueIn(st *State, m string, env *Env) {
 		case sinkOlder:
 			// an io.Writer handed in by the caller cannot reach objects this activation allocated
 			x.havocAny(st, "bytes.Buffer", env.pkg, true)
+			x.havocAny(st, "bytes.Reader", env.pkg, true)
 			return
 		}
+		x.havocAny(st, "bytes.Reader", env.pkg, false)
 		m = "any bytes.Buffer"
 	}
 	if strings.HasPrefix(m, "any ") {
@@ -1231,7 +1234,10 @@ func (x *Exec) resolveSinkValue(st *State, v Value, depth int) (*Ptr, int) {
 		// the bytes on to something unknown
 		if n, ok := v.T.Underlying().(*types.Pointer).Elem().(*types.Named); ok && n.Obj().Pkg() != nil {
 			pp := n.Obj().Pkg().Path()
-			if !(pp == "bytes" && n.Obj().Name() == "Buffer") && !strings.HasPrefix(pp, modulePath) {
+			// self-contained stream objects: their own fields are all that reading or writing changes
+			// (an io.SectionReader reads through ReadAt, which leaves the underlying reader's position alone)
+			selfContained := (pp == "bytes" && (n.Obj().Name() == "Buffer" || n.Obj().Name() == "Reader")) || (pp == "io" && n.Obj().Name() == "SectionReader")
+			if !selfContained && !strings.HasPrefix(pp, modulePath) {
 				return nil, sinkUnknown
 			}
 		}
